@@ -103,6 +103,7 @@ func DefaultHooks() []mapstructure.DecodeHookFunc {
 		StringToURLHook,
 		StringToIPHook,
 		StringToDataSizeHook,
+		IntegerHook,
 	}
 }
 
